@@ -64,7 +64,7 @@ type c08In struct {
 	Component bool       `json:"component,omitempty"`
 	SM        bool       `json:"sm,omitempty"`
 	Log       bool       `json:"log,omitempty"`
-	Conn      int        `json:"conn,omitempty"` // 0: connected  1: no transport (nil)  2: a TCP transport that was never connected  3: a WebSocket transport that was never connected  4: a WebSocket transport whose dial was refused
+	Conn      int        `json:"conn,omitempty"`   // 0: connected  1: no transport (nil)  2: a TCP transport that was never connected  3: a WebSocket transport that was never connected  4: a WebSocket transport whose dial was refused
 	NoSess    bool       `json:"nosess,omitempty"` // client: no session object (before Connect, or after a failed Connect/Resume)
 	SockF     []c08Fault `json:"sockf,omitempty"`
 	Ops       []c08Op    `json:"ops,omitempty"`
@@ -74,6 +74,7 @@ type c08In struct {
 	MaxLen    int   `json:"maxlen,omitempty"`
 	Seed      int64 `json:"seed,omitempty"`
 	FailFrom  int   `json:"failfrom,omitempty"` // wsfault: every socket write fails from this op on
+	Break     int   `json:"break,omitempty"`    // wsfault: 0 the TCP connection starts failing every write (reset not yet noticed)  2 the transport is closed (Disconnect) before that op
 	// filled by Run: the sender index of every element on the wire, in wire order
 	// (the schedule the run exhibited; handed to the model's LTS runner)
 	Sched []int `json:"sched,omitempty"`
@@ -311,7 +312,12 @@ type c08Log struct {
 	n  int
 }
 
-func (l *c08Log) Write(p []byte) (int, error) { l.mu.Lock(); l.n += len(p); l.mu.Unlock(); return len(p), nil }
+func (l *c08Log) Write(p []byte) (int, error) {
+	l.mu.Lock()
+	l.n += len(p)
+	l.mu.Unlock()
+	return len(p), nil
+}
 
 // ---------------------------------------------------------------- mode seq
 
@@ -825,6 +831,9 @@ func c08RunWSFault(in *c08In) Sx {
 	defer sink.stop()
 	tc := xmpp.TransportConfiguration{Address: sink.addr, Domain: "localhost", ConnectTimeout: 2}
 	tr := xmpp.NewClientTransport(tc)
+	if in.Log {
+		tr.LogTraffic(&c08Log{}) // the traffic log only has to be there and swallow its input
+	}
 	if _, err := tr.Connect(); err != nil {
 		return c08Anomaly("harness", "connect: "+err.Error())
 	}
@@ -851,9 +860,15 @@ func c08RunWSFault(in *c08In) Sx {
 	defer cancel()
 	var res []Sx
 	delivered := 0
+	closed := false
 	for i, o := range in.Ops {
 		if i == in.FailFrom {
-			atomic.StoreInt32(&fc.fail, 1) // connection reset / broken pipe, not yet noticed by anybody
+			if in.Break == 2 {
+				tr.Close() // what Client.Disconnect does
+				closed = true
+			} else {
+				atomic.StoreInt32(&fc.fail, 1) // connection reset / broken pipe, not yet noticed by anybody
+			}
 		}
 		var err error
 		chanOK := true
@@ -887,21 +902,46 @@ func c08RunWSFault(in *c08In) Sx {
 	msgs := append([]string{}, sink.msgs...)
 	sink.mu.Unlock()
 	sink.stop()
-	go tr.Close()
+	if !closed {
+		go tr.Close()
+	}
 	if len(msgs) == 0 {
 		return c08Anomaly("lost", "nothing received, not even <open/>")
+	}
+	msgs = msgs[1:] // the client's <open/>
+	if closed {     // Close says goodbye with a <close/> of the framing namespace: not a send
+		var kept []string
+		for _, m := range msgs {
+			if c, ok := canonXML([]byte(m)); ok && strings.HasPrefix(c, "{urn:ietf:params:xml:ns:xmpp-framing}close[") {
+				continue
+			}
+			kept = append(kept, m)
+		}
+		msgs = kept
+	}
+	// what the client holds as sent and unacknowledged
+	var q []string
+	if in.SM {
+		held := in.wsHeld()
+		for j, e := range c.Session.SMState.UnAckQueue.Uslice {
+			if j < len(held) {
+				q = append(q, held[j].tok(e.Stz))
+			} else {
+				q = append(q, "R:"+e.Stz)
+			}
+		}
 	}
 	// each message read as the op that (in order) should have produced it
 	del := in.wsDelivered()
 	var toks []string
-	for j, m := range msgs[1:] {
+	for j, m := range msgs {
 		if j < len(del) {
 			toks = append(toks, del[j].tok(m))
 		} else {
 			toks = append(toks, "R:"+m)
 		}
 	}
-	return L(LS(res), SBytes(strings.Join(toks, "")))
+	return L(LS(res), SBytes(strings.Join(toks, "")), c08Strs(q))
 }
 
 func c08InputWSFault(in *c08In) Sx {
@@ -910,6 +950,20 @@ func c08InputWSFault(in *c08In) Sx {
 		k0 = len(in.Ops) + 1 // never
 	}
 	return L(Z(3), B(in.SM), Zi(k0), c08OpsSx(in))
+}
+
+// wsHeld: the delivered ops a client with stream management holds afterwards
+func (in *c08In) wsHeld() []c08Op {
+	var r []c08Op
+	if !in.SM {
+		return nil
+	}
+	for _, o := range in.wsDelivered() {
+		if !o.nonza() {
+			r = append(r, o)
+		}
+	}
+	return r
 }
 
 // wsDelivered: the ops that reach the socket before it breaks
@@ -929,8 +983,12 @@ func c08OracleWSFault(in *c08In, obs Sx) (string, string) {
 	if len(obs.L) == 3 && obs.L[0].K == "s" {
 		return "wsfault: " + string(bytesOf(obs.L[2])), "wsfault-" + string(bytesOf(obs.L[1]))
 	}
-	if len(obs.L) != 2 || len(obs.L[0].L) != len(in.Ops) {
+	if len(obs.L) != 3 || len(obs.L[0].L) != len(in.Ops) {
 		return "unexpected observation shape", "shape"
+	}
+	how := "the TCP connection started failing every write"
+	if in.Break == 2 {
+		how = "the transport was closed (Disconnect)"
 	}
 	for i, o := range in.Ops {
 		r := obs.L[0].L[i].Z
@@ -940,7 +998,7 @@ func c08OracleWSFault(in *c08In, obs Sx) (string, string) {
 				return fmt.Sprintf("op %d: SendIQ of type %q was not rejected", i, o.Typ), "rejected-returns-nil"
 			}
 		case i >= in.FailFrom && r != 1:
-			return fmt.Sprintf("op %d (%s, %d bytes) was sent over WebSocket after the TCP connection started failing every write, and returned nil: the failed write is not reported (and the stanza is lost)", i, o.K, len(o.data())), "ws-unreported-failure"
+			return fmt.Sprintf("op %d (%s, %d bytes) was sent over WebSocket (traffic log configured: %v) after %s, and returned nil: the failed write is not reported (and the stanza is lost)", i, o.K, len(o.data()), in.Log, how), "ws-unreported-failure"
 		case i < in.FailFrom && r != 0:
 			return fmt.Sprintf("op %d (%s) failed on a healthy WebSocket connection", i, o.K), "ws-spurious-error"
 		}
@@ -951,6 +1009,16 @@ func c08OracleWSFault(in *c08In, obs Sx) (string, string) {
 	}
 	if got := string(bytesOf(obs.L[1])); got != want.String() {
 		return fmt.Sprintf("what the peer received is not the sequence of stanzas whose sends returned nil: got %.150q want %.150q", got, want.String()), "ws-wire-bytes"
+	}
+	held := in.wsHeld()
+	if q := obs.L[2].L; len(q) != len(held) {
+		return fmt.Sprintf("the unacknowledged queue holds %d entries, %d stanzas reached the server", len(q), len(held)), "ws-queue"
+	} else {
+		for j := range q {
+			if string(bytesOf(q[j])) != held[j].want() {
+				return fmt.Sprintf("unacknowledged queue entry %d is not the stanza sent", j), "ws-queue"
+			}
+		}
 	}
 	return "", ""
 }
@@ -1479,12 +1547,13 @@ func (c08) Key(inp interface{}) (string, bool) {
 	if in.Mode == "wsfault" {
 		big := in.FailFrom < len(in.Ops) && len(in.Ops[in.FailFrom].data()) >= 4096
 		hist(fmt.Sprintf("wsfault:first-failing-send>=4KiB=%v", big))
+		hist(fmt.Sprintf("wsfault:log=%v break=%d", in.Log, in.Break))
 		if in.FailFrom >= len(in.Ops) {
 			hist("wsfault:no-failure")
 		}
 	}
 	var b strings.Builder
-	fmt.Fprintf(&b, "f%d ns%v ", in.FailFrom, in.NoSess)
+	fmt.Fprintf(&b, "f%d ns%v br%d ", in.FailFrom, in.NoSess, in.Break)
 	fmt.Fprintf(&b, "%s c%v sm%v log%v nc%d|", in.Mode, in.Component, in.SM, in.Log, in.Conn)
 	if in.Mode == "seq" {
 		role := "client-sm-off"
@@ -1707,8 +1776,23 @@ func (c08) Gen(r *rand.Rand, tier string) []interface{} {
 		&c08In{Mode: "wsfault", FailFrom: 1, Ops: []c08Op{{K: "pres", ID: "1"}, {K: "sendiq", ID: "2", Typ: "set", Len: 30, Seed: 9}}},
 		&c08In{Mode: "wsfault", FailFrom: 1, Ops: []c08Op{{K: "pres", ID: "1"}, {K: "msg", ID: "2", Len: 9000, Seed: 9}, {K: "msg", ID: "3", Len: 3}}},
 	)
+	// every send position x traffic log absent/present x kind of break x stream management
+	fam := []c08Op{{K: "msg", ID: "m", Len: 12, Seed: 21}, {K: "raw", Raw: "<presence id='r'/>"}, {K: "sendiq", ID: "q", Typ: "get", Len: 8, Seed: 22}}
+	for k := 0; k <= len(fam); k++ {
+		for v := 0; v < 8; v++ {
+			ops := make([]c08Op, len(fam))
+			for j := range fam {
+				ops[j] = fam[(j+k)%len(fam)] // the first failing send is a Send, a SendRaw, a SendIQ in turn
+			}
+			brk := 0
+			if v&2 != 0 {
+				brk = 2
+			}
+			out = append(out, &c08In{Mode: "wsfault", FailFrom: k, Log: v&1 != 0, Break: brk, SM: v&4 != 0, Ops: ops})
+		}
+	}
 	for i := 0; i < nwsf; i++ {
-		in := &c08In{Mode: "wsfault", SM: r.Intn(2) == 0}
+		in := &c08In{Mode: "wsfault", SM: r.Intn(2) == 0, Log: r.Intn(2) == 0, Break: []int{0, 0, 2}[r.Intn(3)]}
 		nops := 1 + r.Intn(6)
 		for j := 0; j < nops; j++ {
 			o := c08GenOp(r, j, false)
